@@ -40,8 +40,8 @@ func recvBounded(rt *network.Router, cid string, bd time.Duration, froms ...shar
 // right payloads. Repeated several hundred times per case on one router.
 func TestWakeupPairs(t *testing.T) {
 	const test = "WakeupPairs"
-	bd := bound()
 	vlib.Check(t, 160, func(t *rapid.T) {
+		bd := waitBound()
 		members := []sharing.ID{1, 2, 3}
 		d := newCtlDelivery(1, members)
 		f := &feeder{d: d, bound: bd}
@@ -99,6 +99,7 @@ func TestWakeupPairs(t *testing.T) {
 			perturb(2, lo+(i*step)%span)
 			for j, dp := range orders[pattern] {
 				if err := f.deposit(dp.from, dp.w); err != nil {
+					hangSeen.Store(true)
 					t.Fatalf("iteration %d: %v", i, err)
 				}
 				perturb(2, (lo+(i*step+j*7)%span)/2)
@@ -116,6 +117,7 @@ func TestWakeupPairs(t *testing.T) {
 						t.Fatalf("iteration %d pattern %d nsB=%q: receive %s returned %s, want {2:%q 3:%q}", i, pattern, nsB, name, showRes(recvRes{r.m, r.err}), w2, w3)
 					}
 				case <-tm.C:
+					hangSeen.Store(true)
 					t.Fatalf("LOST WAKE-UP: iteration %d pattern %d nsB=%q spin(lo=%d step=%d span=%d): receive %s still blocked %v after both its messages were deposited", i, pattern, nsB, lo, step, span, name, bd)
 				}
 			}
@@ -130,8 +132,8 @@ func TestWakeupPairs(t *testing.T) {
 // their place.
 func TestBufferAccounting(t *testing.T) {
 	const test = "BufferAccounting"
-	bd := bound()
 	vlib.Check(t, 24, func(t *rapid.T) {
+		bd := waitBound()
 		members := []sharing.ID{1, 2, 3}
 		d := newCtlDelivery(1, members)
 		f := &feeder{d: d, bound: bd}
@@ -157,6 +159,7 @@ func TestBufferAccounting(t *testing.T) {
 		}
 		feed := func(from sharing.ID, cid string, payload []byte) {
 			if err := f.deposit(from, encodeWire(0, cid, payload)); err != nil {
+				hangSeen.Store(true)
 				_, rerr, _ := recvBounded(view, "probe-after-failure", time.Second, 2)
 				t.Fatalf("%s: %v; the router reports: %v", kind, err, rerr)
 			}
